@@ -3,6 +3,7 @@
 package main
 
 import (
+	"mltwist/internal/exprtransform"
 	"encoding/json"
 	"fmt"
 	"mltwist/internal/state"
@@ -207,6 +208,22 @@ func init() {
 					panic("harness: unknown memory kind " + c.Kind)
 				}
 			case "store":
+				if c.Val != nil && c.Val.K == "basecopy" {
+					// the value is whatever the base layer (of an overlay; else the memory itself) holds there now, as
+					// a constant - "writing back the original bytes"; zeros when the range is not fully known
+					src := s.mem
+					if s.lower != nil {
+						src = s.lower
+					}
+					bs := make([]int, c.W)
+					if e, ok := src.Load(model.Addr(s.base+uint64(c.Off)), expr.Width(c.W)); ok {
+						if cst, isConst := exprtransform.ConstFold(e).(expr.Const); isConst {
+							bs = ints(cst.WithWidth(expr.Width(c.W)).Bytes())
+						}
+					}
+					c.Val = &Node{K: "c", W: c.W, B: bs}
+					ev.memCase.Val = c.Val
+				}
 				v := leafExpr(c.Val)
 				s.track(fmt.Sprintf("stored value %s", exprJSON(v)), func() string { return exprJSON(v) })
 				m := s.mem
